@@ -8,7 +8,7 @@ for prop in "$@"; do
   echo "=== $prop"
   /verif/check "$prop" quick > /tmp/try_seeded.$$.log 2>&1
   rc=$?
-  grep -E "^violation|^VIOLATION|^KNOWN|^HARNESS|^runs=" /tmp/try_seeded.$$.log | cut -c1-420 | head -12
+  grep -E "^violation|^VIOLATION|^KNOWN|^HARNESS|^runs=|^sim_io" /tmp/try_seeded.$$.log | cut -c1-420 | head -12
   echo "rc=$rc"
 done
 rm -f /tmp/try_seeded.$$.log
